@@ -423,6 +423,17 @@ func safeMapIndex(m, k reflect.Value) (v reflect.Value) {
 	return m.MapIndex(k)
 }
 
+// safeFieldByName is v.FieldByName(name), and no field when the way to it leads
+// through an embedded pointer that is nil.
+func safeFieldByName(v reflect.Value, name string) (f reflect.Value) {
+	defer func() {
+		if recover() != nil {
+			f = reflect.Value{}
+		}
+	}()
+	return v.FieldByName(name)
+}
+
 func appendDistinct(a []*fieldVM, i *fieldVM) []*fieldVM {
 	has := false
 	for _, e := range a {
@@ -1139,7 +1150,7 @@ func (t *TagExpr) getValue(fieldSelector string, subFields []interface{}) (v int
 				}
 				vv = vv.Field(idx)
 			} else if str, ok := k.(string); ok {
-				vv = vv.FieldByName(str)
+				vv = safeFieldByName(vv, str)
 			} else {
 				return nil
 			}
